@@ -249,7 +249,10 @@ func evalCharCtor(pk *packages.Package, fd *ast.FuncDecl, funcs map[string]*ast.
 					c.Problems = append(c.Problems, sel.Sel.Name+" is not a constant")
 				}
 			default:
-				c.Problems = append(c.Problems, "assignment to field "+sel.Sel.Name)
+				// an unexported field set to a constant (updateOnSameValue under another name) is no part of the catalogue
+				if ast.IsExported(sel.Sel.Name) || constOf(info, s.Rhs[0]) == nil {
+					c.Problems = append(c.Problems, "assignment to field "+sel.Sel.Name)
+				}
 			}
 		case *ast.ExprStmt:
 			call, ok := s.X.(*ast.CallExpr)
